@@ -88,9 +88,10 @@ def inheritance_scenario(rng):
         "d": ("List[datetime.date]", None, ["[]", "[datetime.date(2020, 1, 1)]"]),
         "e": ("Optional[int]", ["None", "5", "0"], ["None", "3", "0"]),
     }
-    depth = rng.choice([3, 3, 4])
+    depth = rng.choice([3, 4, 4])
     names = [f"L{k}" for k in range(depth)]
     main = gen.PRELUDE
+    declared = set()
     for k, cn in enumerate(names):
         parent = base if k == 0 else f"({names[k - 1]})"
         decl = rng.sample(sorted(pool), rng.randrange(1, 4)) if k else rng.sample(sorted(pool), rng.randrange(2, 5))
@@ -98,7 +99,11 @@ def inheritance_scenario(rng):
         main += f"{deco}\nclass {cn}{parent}:\n"
         for fn in decl:
             ty, defaults, _ = pool[fn]
-            kw = ", kw_only=True" if rng.random() < 0.3 else ""
+            # a field declared again further down flips its kw_only flag more often than not (the builder must
+            # follow the NEAREST declaration for defaults and for positional / keyword passing)
+            again = fn in declared
+            kw = ", kw_only=True" if rng.random() < (0.5 if again else 0.3) else ""
+            declared.add(fn)
             if defaults is None:
                 main += f"    {fn}: {ty} = field(default_factory=list{kw})\n"
             else:
@@ -127,7 +132,66 @@ def inheritance_scenario(rng):
     return dict(mods={}, main=main, type=root, values=values, mixin=mixin, name="inheritance", shape=f"{root}/depth{depth}")
 
 
-SCENARIOS = [generic_scenario, generic_scenario, inheritance_scenario]
+def inheritance_grid(rng):
+    """systematic part: one field `a` over a 3-level chain; every level leaves it alone (-), declares it positional with a
+    default (p), kw_only with a default (k), positional required (P) or kw_only required (K): all 124 patterns in which
+    somebody declares it.  Around it a required positional `z` of the root and a kw_only defaulted `m` of the middle class;
+    mixin / plain and omit_default (information preserving: the dropped value is the default that comes back) alternate.
+    The builder must follow the NEAREST declaration for the default, for required-ness and for positional / keyword passing."""
+    out = []
+    idx = 0
+    opts = ("-", "p", "k", "P", "K")
+    for p0 in opts:
+        for p1 in opts:
+            for p2 in opts:
+                if p0 == p1 == p2 == "-":
+                    continue
+                idx += 1
+                i = next(_ctr)
+                mixin = idx % 2 == 0
+                omit = idx % 3 == 0
+                base = "(DataClassDictMixin)" if mixin else ""
+                main = gen.PRELUDE
+                eff = None            # effective declaration seen by each class
+                effs = []
+                for k, pat in enumerate((p0, p1, p2)):
+                    parent = base if k == 0 else f"(G{k - 1})"
+                    main += f"@dataclass\nclass G{k}{parent}:\n"
+                    body = ""
+                    if k == 0:
+                        body += "    z: str\n"
+                    if k == 1:
+                        body += "    m: Optional[int] = field(default=None, kw_only=True)\n"
+                    if pat != "-":
+                        eff = (pat, 10 * (k + 1))
+                        args = []
+                        if pat in "pk":
+                            args.append(f"default={10 * (k + 1)}")
+                        if pat in "kK":
+                            args.append("kw_only=True")
+                        body += "    a: int" + (f" = field({', '.join(args)})" if args else "") + "\n"
+                    if k == 0 and omit:
+                        body += "    class Config(BaseConfig):\n        omit_default = True\n"
+                    main += body or "    pass\n"
+                    effs.append(eff)
+                for k in (2, 1):
+                    e = effs[k]
+                    if e is None:
+                        continue
+                    root = f"G{k}"
+                    more = ", m=3" if k >= 1 else ""
+                    vs = [f"{root}(z='w', a=-1{more})", f"{root}(z='', a={e[1]})"]
+                    for anc in range(k):
+                        if effs[anc] is not None:
+                            vs.append(f"{root}(z='q', a={effs[anc][1]})")      # equals an ANCESTOR's default
+                    if e[0] in "pk":
+                        vs.append(f"{root}(z='d')")
+                    out.append(dict(mods={}, main=main, type=root, values=vs, mixin=mixin, name="inheritance-grid",
+                                    shape=f"{p0}{p1}{p2}/{root}" + ("/omit_default" if omit else "")))
+    return out
+
+
+SCENARIOS = [generic_scenario, inheritance_scenario]
 
 
 def build(sc: dict) -> dict:
